@@ -11,7 +11,8 @@ Inductive cexp : Type :=
 
 (* classification of one emitted target-language statement *)
 Inductive akind : Type :=
-| KGuard | KElse | KLoop | KReturn | KCursor | KStore | KCall | KDecl | KOpen | KClose | KPre | KSAssert | KRAssert | KMacro.
+| KGuard | KElse | KLoop | KReturn | KCursor | KStore | KCall | KDecl | KOpen | KClose | KPre | KSAssert | KRAssert | KMacro
+| KExpr.     (* an expression fragment: the body of a macro / block set that yields a value *)
 
 Inductive tnode : Type :=
 | NIf (branches : list (cexp * list tnode)) (els : list tnode)
@@ -53,3 +54,45 @@ Fixpoint find_macro (name : string) (ms : list (string * string * list tnode)) :
   | [] => []
   | (n, _, b) :: r => if String.eqb n name then b else find_macro name r
   end.
+
+(* ---- "every otherwise unchecked store is preceded by a guard" (enable_override_variable_array_capacity = true) ----
+   Static scan of a macro tree: `seen` = a call of the guard macro has been emitted on every path reaching this point.  Branches
+   whose condition is exactly the option atom are taken; any other static decision may go either way, so a guard only counts
+   after an NIf when every branch (and the else) emitted one; a loop body may run zero times. *)
+Section Guarded.
+  Variable is_guard : akind -> string -> bool.        (* a call of the guard macro *)
+  Variable is_unchecked : akind -> string -> bool.    (* a store that no support primitive bounds-checks *)
+  Variable opt_atom : string.
+
+  Fixpoint guarded_node (n : tnode) (seen : bool) : option bool :=
+    match n with
+    | NAct k p => if is_guard k p then Some true else if is_unchecked k p then (if seen then Some seen else None) else Some seen
+    | NSet _ _ | NJAssert _ => Some seen
+    | NFor _ body =>
+        match (fix go (l : list tnode) (s : bool) : option bool :=
+                 match l with [] => Some s | x :: r => match guarded_node x s with Some s' => go r s' | None => None end end) body seen with
+        | Some _ => Some seen
+        | None => None
+        end
+    | NIf brs els =>
+        let run := fix go (l : list tnode) (s : bool) : option bool :=
+                     match l with [] => Some s | x :: r => match guarded_node x s with Some s' => go r s' | None => None end end in
+        match brs with
+        | [(CAtom a, body)] => if String.eqb a opt_atom then run body seen else
+            match run body seen, run els seen with Some a1, Some a2 => Some (a1 && a2) | _, _ => None end
+        | _ =>
+            (fix all (l : list (cexp * list tnode)) (acc : bool) : option bool :=
+               match l with
+               | [] => match run els seen with Some a2 => Some (acc && a2) | None => None end
+               | (_, body) :: r => match run body seen with Some a1 => all r (acc && a1) | None => None end
+               end) brs true
+        end
+    end.
+
+  Definition guarded_macro (body : list tnode) : bool :=
+    match (fix go (l : list tnode) (s : bool) : option bool :=
+             match l with [] => Some s | x :: r => match guarded_node x s with Some s' => go r s' | None => None end end) body false with
+    | Some _ => true
+    | None => false
+    end.
+End Guarded.
